@@ -3,7 +3,30 @@
 // The scenario program and the schedule are both drawn from the Source; the
 // pool (tlx/thread_pool.cpp) is compiled against the deterministic scheduler.
 #include "../engine/pbt.hpp"
+#ifdef C10_REAL_THREADS
+// real-thread tier (ThreadSanitizer / ASan): same scenario programs, the OS schedules. The harness'
+// own cross-thread bookkeeping is atomic; the jobs' EFFECTS stay plain memory so that TSan checks the
+// visibility promise of loop_until_empty().
+#include <atomic>
+#include <string>
+namespace vsched {
+inline void obs(const char* = "") {}
+inline void note(const char*, long = 0, long = 0) {}
+template <class T>
+using Atomic = ::std::atomic<T>;
+struct NoSched {
+    ::std::string describe() const { return " (real threads)"; }
+};
+inline NoSched& S() {
+    static NoSched s;
+    return s;
+}
+} // namespace vsched
+typedef ::std::atomic<int> HInt;
+#else
 #include "../engine/sched/vsched.hpp"
+typedef int HInt;
+#endif
 
 #include <tlx/thread_pool.hpp>
 
@@ -11,7 +34,7 @@
 
 namespace {
 
-using Thread = tlx::std::thread; // = vsched::Thread through the shim
+using Thread = tlx::std::thread; // = vsched::Thread through the shim (std::thread subclass in the real-thread tier)
 const int MAXJOBS = 24;
 
 struct JobSpec {
@@ -23,15 +46,16 @@ struct JobSpec {
 struct State {
     tlx::ThreadPool* pool = nullptr;
     std::vector<JobSpec> jobs;
-    int started[MAXJOBS], finished[MAXJOBS], effect[MAXJOBS];
-    bool enq_called[MAXJOBS], enq_returned[MAXJOBS];
-    bool terminate_called = false;
+    HInt started[MAXJOBS], finished[MAXJOBS];
+    int effect[MAXJOBS]; // plain on purpose
+    HInt enq_called[MAXJOBS], enq_returned[MAXJOBS];
+    HInt terminate_called{0};
     vsched::Atomic<int> dummy{0};
-    int init_calls = 0;
+    HInt init_calls{0};
     void reset() {
         jobs.clear();
-        for (int i = 0; i < MAXJOBS; ++i) started[i] = finished[i] = effect[i] = 0, enq_called[i] = enq_returned[i] = false;
-        terminate_called = false;
+        for (int i = 0; i < MAXJOBS; ++i) started[i] = 0, finished[i] = 0, effect[i] = 0, enq_called[i] = 0, enq_returned[i] = 0;
+        terminate_called = 0;
         init_calls = 0;
         pool = nullptr;
     }
@@ -119,7 +143,7 @@ void wait_empty_checked(bool closed, const char* who) {
     if (st.terminate_called) return; // terminated pools may leave jobs unexecuted
     size_t done_now = st.pool->done();
     int finished_total = 0;
-    for (size_t j = 0; j < st.jobs.size(); ++j) finished_total += st.finished[j];
+    for (size_t j = 0; j < st.jobs.size(); ++j) finished_total += (int)st.finished[j];
     for (size_t j = 0; j < st.jobs.size(); ++j) {
         bool need = must[j] || (closed && st.enq_called[j]);
         if (!need) continue;
@@ -297,6 +321,17 @@ void execute(const Program& g) {
 
 } // namespace
 
+#ifdef C10_REAL_THREADS
+PBT_PROPERTY(thread_pool_real) {
+    st.reset();
+    Program g = gen_program(src);
+    pbt::label(tnames[g.tmpl]);
+    if (g.nested) pbt::label("nested");
+    describe(g);
+    execute(g);
+    if (g.P >= 2 && g.nested) pbt::nontrivial();
+}
+#else
 PBT_PROPERTY(thread_pool) {
     st.reset();
     Program g = gen_program(src);
@@ -398,3 +433,4 @@ PBT_PROPERTY(thread_pool_exhaustive) {
     pbt::label("template");
     pbt::nontrivial();
 }
+#endif // C10_REAL_THREADS
